@@ -219,7 +219,9 @@ def run_with_deadline(run_fn, fn, tier, seconds):
         signal.signal(signal.SIGALRM, old)
 
 
-ALT_ENV = {"TZ": "Pacific/Chatham", "PYTHONOPTIMIZE": "1"}
+ALT_ENV = {"TZ": "Pacific/Chatham", "PYTHONOPTIMIZE": "1",
+           # default text / filesystem encoding ASCII instead of UTF-8 (C locale, UTF-8 mode and locale coercion off)
+           "LC_ALL": "C", "LANG": "C", "PYTHONUTF8": "0", "PYTHONCOERCECLOCALE": "0"}
 SCRATCH_ROOT = os.path.join(__import__("tempfile").gettempdir(), "alos2-verif-altenv-cwd")
 ALT_ENV_BUDGET_S = {"quick": 900, "thorough": 7200}
 
@@ -230,7 +232,7 @@ def run_alt_env(pid, fn_name, tier, seed):
     env["PYTHONHASHSEED"] = str(1 + (seed * 7919 + 13) % 4000000000)
     env["VERIF_SEED"] = str(seed)
     env["VERIF_ALT_ENV"] = "0"
-    name = f"{fn_name} [alt env: TZ={ALT_ENV['TZ']}, -O, hash seed {env['PYTHONHASHSEED']}]"
+    name = f"{fn_name} [alt env: TZ={ALT_ENV['TZ']}, -O, ASCII default encoding, hash seed {env['PYTHONHASHSEED']}]"
     os.makedirs(SCRATCH_ROOT, exist_ok=True)
     try:
         p = subprocess.run([sys.executable, os.path.abspath(__file__), "_oracle", pid, "--fn", fn_name, "--tier", tier],
@@ -321,7 +323,8 @@ def check(pid, tier, seed):
         results.append(run_fn(fn, tier))
 
     # the properties hold in every process environment: the oracles once more in a subprocess with another time zone
-    # (UTC+12:45 / +13:45 with DST), another string-hash seed, `python -O` (assert statements stripped) and another cwd
+    # (UTC+12:45 / +13:45 with DST), another string-hash seed, `python -O` (assert statements stripped), the C locale with an
+    # ASCII default text / filesystem encoding, and another cwd
     for fn in mod.checks(tier):
         if fn.__name__.startswith("oracle") and os.environ.get("VERIF_ALT_ENV", "1") != "0":
             results.append(run_alt_env(pid, fn.__name__, tier, seed))
